@@ -108,11 +108,15 @@ def invalid_value(rng, kind, attr):
                 '\uff4a\uff53\uff4f\uff4e', 'un\u0131x', 'dos\u00a0',
                 'text/plain\u2028', 'b\u0131nary', 'JSON', 'Text',
                 'unix\n', 'dos\n', 'json\n', 'text\n', 'binary\n',
-                'text/plain\n', 'unix\r\n']
+                'text/plain\n', 'unix\r\n',
+                # values that upset the code building the error message
+                '%s', '%d %(x)s', '{}', '{0}{x}', "it's \"x\"", 'a\nb',
+                'x' * 5000, '\ud800', '\x00', '%']
         return rng.choice([v for v in pool if v not in choices])
 
     wrong = {
-        'str': [5, {'$bytes': '6162'}, None, ['a'], {'a': 1}, 1.5],
+        'str': [5, {'$bytes': '6162'}, None, ['a'], {'a': 1}, 1.5,
+                {'$bytes': 'ff25737b7d'}, {'$tuple': ['%s', 1]}],
         'int': ['4', None, 1.5, {'$bytes': '34'}, [4], 0.0, 1.0, 2.0, 4.0,
                 8.0],
         'dict': [[1], 'x', None, 5, {'$bytes': '7b7d'}, {'$tuple': [1]}],
